@@ -134,7 +134,8 @@ impl PoolAllocator {
             buckets: unsafe {
                 UniqueIndexSet::new_uninit(Self::calc_number_of_buckets(bucket_layout, ptr, size))
             },
-            bucket_size: bucket_layout.size(),
+            // the distance between two buckets, every bucket has to start at an aligned address
+            bucket_size: align(bucket_layout.size(), bucket_layout.align()),
             bucket_alignment: bucket_layout.align(),
             start: SyncPointer::new(unsafe {
                 ptr.as_ptr().add(adjusted_start - ptr.as_ptr() as usize)
@@ -357,7 +358,7 @@ impl<const MAX_NUMBER_OF_BUCKETS: usize> FixedSizePoolAllocator<MAX_NUMBER_OF_BU
                         MAX_NUMBER_OF_BUCKETS,
                     ))
                 },
-                bucket_size: bucket_layout.size(),
+                bucket_size,
                 bucket_alignment: bucket_layout.align(),
                 start: SyncPointer::new(unsafe {
                     ptr.as_ptr().add(adjusted_start - ptr.as_ptr() as usize)
